@@ -81,7 +81,7 @@ M += [
  ('r3_ctl_group_by_reintroduced', [('starky/src/cross_table_lookup.rs', '    let mut tables: Vec<usize> = vec![];\n    for looking_table in &looking_tables {\n        if !tables.contains(&looking_table.table) {\n            tables.push(looking_table.table);\n        }\n    }\n', '    let mut tables: Vec<usize> = looking_tables.iter().map(|t| t.table).collect();\n    tables.dedup();\n')], ['C10'], 'R10.6'),
  ('r3_random_access_base_loop_bits', [('plonky2/src/gates/random_access.rs', '        for copy in 0..self.num_copies {\n            let access_index = vars.local_wires[self.wire_access_index(copy)];\n            let mut list_items = (0..self.vec_size())\n                .map(|i| vars.local_wires[self.wire_list_item(i, copy)])\n                .collect::<Vec<_>>();\n            let claimed_element = vars.local_wires[self.wire_claimed_element(copy)];\n            let bits = (0..self.bits)\n                .map(|i| vars.local_wires[self.wire_bit(i, copy)])\n                .collect::<Vec<_>>();\n\n            // Assert that each bit wire value is indeed boolean.\n            for &b in &bits {\n                yield_constr.one', '        for copy in 0..self.bits {\n            let access_index = vars.local_wires[self.wire_access_index(copy)];\n            let mut list_items = (0..self.vec_size())\n                .map(|i| vars.local_wires[self.wire_list_item(i, copy)])\n                .collect::<Vec<_>>();\n            let claimed_element = vars.local_wires[self.wire_claimed_element(copy)];\n            let bits = (0..self.bits)\n                .map(|i| vars.local_wires[self.wire_bit(i, copy)])\n                .collect::<Vec<_>>();\n\n            // Assert that each bit wire value is indeed boolean.\n            for &b in &bits {\n                yield_constr.one')], ['C07'], 'R07.6'),
  ('r3_lookup_batch_lu_degree_off', [('plonky2/src/plonk/vanishing_poly.rs', '    let lu_degree = common_data.quotient_degree_factor - 1;\n    let num_sldc_polys = local_lookup_zs.len() - 1;\n    let lut_degree = num_lut_slots.div_ceil(num_sldc_polys);\n\n    let mut constraints = Vec::with_capacity(4 + common_data.luts.len() + 2 * num_sldc_polys);\n\n    // RE is the first polynomial stored.\n    let z_re = local_lookup_zs[0];\n    let next_z_re = next_lookup_zs[0];\n\n    // Partial Sums and LDCs are both stored in the remaining SLDC polynomials.\n    let z_x_lookup_sldcs = &local_lookup_zs[1..num_sldc_polys + 1];\n    let z_gx_lookup_sldcs = &next_lookup_zs[1..num_sldc_polys + 1];\n\n    let delta_challenge_a = F::Extension::from(', '    let lu_degree = common_data.quotient_degree_factor;\n    let num_sldc_polys = local_lookup_zs.len() - 1;\n    let lut_degree = num_lut_slots.div_ceil(num_sldc_polys);\n\n    let mut constraints = Vec::with_capacity(4 + common_data.luts.len() + 2 * num_sldc_polys);\n\n    // RE is the first polynomial stored.\n    let z_re = local_lookup_zs[0];\n    let next_z_re = next_lookup_zs[0];\n\n    // Partial Sums and LDCs are both stored in the remaining SLDC polynomials.\n    let z_x_lookup_sldcs = &local_lookup_zs[1..num_sldc_polys + 1];\n    let z_gx_lookup_sldcs = &next_lookup_zs[1..num_sldc_polys + 1];\n\n    let delta_challenge_a = F::Extension::from(')], ['C08'], 'R08.4'),
- ('r3_compressed_pi_hash_padded', [('plonky2/src/plonk/proof.rs', '    pub(crate) fn get_public_inputs_hash(\n        &self,\n    ) -> <<C as GenericConfig<D>>::InnerHasher as Hasher<F>>::Hash {\n        C::InnerHasher::hash_no_pad(&self.public_inputs)\n    }\n\n    pub fn to_bytes(&self) -> Vec<u8> {\n        let mut buffer = Vec::new();\n        let _ = buffer.write_compressed', '    pub(crate) fn get_public_inputs_hash(\n        &self,\n    ) -> <<C as GenericConfig<D>>::InnerHasher as Hasher<F>>::Hash {\n        C::InnerHasher::hash_pad(&self.public_inputs)\n    }\n\n    pub fn to_bytes(&self) -> Vec<u8> {\n        let mut buffer = Vec::new();\n        let _ = buffer.write_compressed')], ['C16'], 'R16.5'),
+ ('r3_compressed_pi_hash_padded', [('plonky2/src/plonk/proof.rs', '    pub(crate) fn get_public_inputs_hash(\n        &self,\n    ) -> <<C as GenericConfig<D>>::InnerHasher as Hasher<F>>::Hash {\n        C::InnerHasher::hash_no_pad(&self.public_inputs)', '    pub(crate) fn get_public_inputs_hash(\n        &self,\n    ) -> <<C as GenericConfig<D>>::InnerHasher as Hasher<F>>::Hash {\n        C::InnerHasher::hash_pad(&self.public_inputs)')], ['C16'], 'R16.5'),
  ('r3_is_zero_on_raw_repr', [('field/src/goldilocks_field.rs', '        if self.is_zero() {\n            return None;\n        }', '        if self.0 == 0 {\n            return None;\n        }')], ['C14'], 'R14.4'),
 ]
 BEHAVIOUR_PRESERVING += [
